@@ -105,7 +105,9 @@ def _cli_case(draw, tier):
     return {"kind": "cli", "files": files, "leftover": draw(st.sampled_from([None, None, 0, 1, 2])),
             "leftover_kind": draw(st.sampled_from(["rows", "garbage"])),
             # replicate searches: the files bear the same name in different directories
-            "samename": draw(st.booleans())}
+            "samename": draw(st.booleans()),
+            # a PIN is a tab-delimited text whatever its name ends in
+            "suffix": draw(st.sampled_from([".pin", ".pin", ".tab", ".txt", ".tsv", ".PIN", ".pin.1", ""]))}
 
 
 @st.composite
@@ -224,9 +226,9 @@ def _check_cli(case):
             text, exp = render(c)
             if case.get("samename"):
                 (tmp / f"rep{i}").mkdir()
-                p = tmp / f"rep{i}" / "search.pin"
+                p = tmp / f"rep{i}" / ("search" + case.get("suffix", ".pin"))
             else:
-                p = tmp / f"exp{i}.pin"
+                p = tmp / (f"exp{i}" + case.get("suffix", ".pin"))
             p.write_text(text)
             paths.append(p)
             texts.append(text)
@@ -275,7 +277,7 @@ def _check_cli(case):
             # ... and the input file itself is either untouched or converted in place, never anything else
             now = p.read_text()
             require(now in (texts[i], want), "cli-input-changed", f"input file {i} ({kinds[i]}) holds neither its own content nor its conversion; {where}")
-    classes = ["cli-verify", "cli-files-" + "+".join(kinds)]
+    classes = ["cli-verify", "cli-files-" + "+".join(kinds), "cli-suffix-" + (case.get("suffix", ".pin") or "none")]
     if case.get("samename") and len(paths) >= 2:
         classes.append("cli-equally-named-files-in-different-directories")
     if lo is not None:
